@@ -322,7 +322,8 @@ def main(argv=None):
             if replayed_per_fn[fk] > MAX_REPLAYS_PER_FN:
                 unreplayed += 1
                 continue
-            tag = "%s_%s_%s" % (prop, r["fn"], hashlib.sha256((r["key"] + str(confirm)).encode()).hexdigest()[:10])
+            # the evidence path is part of the name: concurrent runs of the same check (seed trials in scratch worktrees) must not share replay files
+            tag = "%s_%s_%s" % (prop, r["fn"], hashlib.sha256((r["key"] + str(confirm) + str(a.evidence or "") + REPO).encode()).hexdigest()[:10])
             path = os.path.join(ROOT, "replays", tag + ".json")
             json.dump(dict(property=prop, fn=r["fn"], key=r["key"], params=r["params"], values=r["values"],
                            failed=r["failed"], mode=r["mode"]), open(path, "w"), indent=1)
